@@ -587,6 +587,7 @@ SKEL_ROLES = [
     ('restore_global', 'global_profiler._profile, global_profiler.enabled = global_profiler_state'),
     ('set_argv', 'sys.argv = '), ('find_script', 'script_file = find_'), ('find_setup', 'setup_file = find_script('), ('restore_contents', 'lst[:] = old'), ('exit_restore_argv', 'exit: _restore_list(argv)'),
     ('exit_restore_path', 'exit: _restore_list(path)'), ('rebind', 'sys.argv, sys.path = (argv, path)'), ('call_main', '_main(args)'),
+    ('ap_exec', 'exec(code_obj'), ('ap_save', 'enable_count = prof.enable_count'), ('ap_winddown', 'while: prof.enable_count > enable_count: prof.disable_by_count()'),
     ('en', 'self.enable_by_count()'), ('dis', 'self.disable_by_count()'), ('yield', 'yield'),
     ('if_interval', 'if: options.output_interval'), ('if_builtin', 'if: options.builtin'), ('if_global', 'if: global_profiler'),
     ('kp_builtins_set', "builtins.__dict__['profile'] = prof"), ('builtins_set', "builtins.__dict__['profile'] = profile"), ('builtins_restore', "builtins.__dict__['profile'] = old_profile"),
@@ -669,6 +670,9 @@ class SkelEmitter:
             return '.raise_ .other'
         if isinstance(s, ast.While) and ast.unparse(s.test) == 'True':
             return '.eff %s false' % self.intern('loop')
+        if isinstance(s, ast.While) and not any(r in ast.unparse(s) for r in self.risky) and not s.orelse:
+            # a loop that runs no user code (e.g. counting the enable count down): one leaf, named after its test and body
+            return '.eff %s false' % self.intern(('while: %s: %s' % (ast.unparse(s.test), '; '.join(' '.join(ast.unparse(b).split()) for b in s.body)))[:90])
         if isinstance(s, (ast.Assign, ast.Expr, ast.AugAssign, ast.Import, ast.ImportFrom, ast.Delete, ast.Assert, ast.AnnAssign,
                           ast.FunctionDef, ast.AsyncFunctionDef)):
             if isinstance(s, (ast.FunctionDef, ast.AsyncFunctionDef)):
@@ -726,6 +730,10 @@ def gen_skeletons():
         out.append(skel_def('lprunCore', 'ipython_extension.py `lprun`, from the builtins handling to the end', ei, lprun.body[start:]))
     except StopIteration:
         out.append('def lprunCore : Skel Nat := by exact anchor_statement_not_found\n')
+    # autoprofile.run: the statement that executes the rewritten script, and what surrounds it
+    ap = ast.parse(src_of('line_profiler/autoprofile/autoprofile.py'))
+    ea = SkelEmitter(('exec(code_obj', 'profiler.profile()', 'compile(tree_profiled'))
+    out.append(skel_def('autoprofileRun', 'autoprofile/autoprofile.py `run`', ea, find_func(ap, 'run').body))
     # by-count brackets of the mixin
     mx = ast.parse(src_of(MIXIN))
     ew = SkelEmitter(RISKY_WRAP)
